@@ -41,9 +41,9 @@ def extract_preproc(report):
         if not m:
             raise ExtractionError(f"{n} has an unrecognised shape: {regs[n]}")
         mj.append(m.group(1))
-    if regs["NAMESPACE_DECL"] != "xmlns:[[:alpha:]]+":
+    if regs["NAMESPACE_DECL"] != "xmlns:[[:alpha:]_][[:alnum:]_.-]*":
         raise ExtractionError(f"NAMESPACE_DECL changed: {regs['NAMESPACE_DECL']}")
-    if regs["PREFIX"] != "(</?)[[:alpha:]]+:":
+    if regs["PREFIX"] != "(</?)[[:alpha:]_][[:alnum:]_.-]*:":
         raise ExtractionError(f"PREFIX changed: {regs['PREFIX']}")
     # order and kind of the rewriting calls
     calls = [(m.group(1), m.group(2), m.group(3)) for m in re.finditer(r"\b(\w+)\.(replace_all|replace)\(&mathml_str,\s*([^;]*)\);", body)]
